@@ -15,11 +15,26 @@
               vals = (0 (pv ...)) | (1 exn) = Row.values()
      neg      ((path obs z) ...) nav(path).index(z) with z < 0: obs = (0 start end) | (1 exn)   (own stream only);
                                  the property demands IndexError, the model is index_start_z
-     cut      number of bytes the record is short of its extent (stream truncated; absent or 0 otherwise) *)
+     cut      number of bytes the record is short of its extent (stream truncated; absent or 0 otherwise)
+     badc     (1 cusage) stream bad-counter only (absent otherwise): the counters of the record description are
+              cusage = 0 unsigned DISPLAY items, 1 unsigned COMP-3 items, and some of them may hold bytes their decoder
+              rejects.  Every observation of such a case is a COMPLETE read made from scratch: top = unpacker.nav(...),
+              each path obs = unpacker.nav(...) then the path then start / end / raw() / value().  The model is the
+              navigator constructor with a partial counter decoder (Model/LayoutPartial.v), the counter decoder is
+              estruct's (dcountp_zoned / dcountp_packed).
+
+   Known findings: 1 = K-index-odo-value (trigger odo_in_table), 2 = K-bad-counter-blocks-record: the tree has an ODO
+   table, some counter the walk reaches holds bytes its decoder rejects (bad_counter = Some ex, ex the decoder's
+   ValueError), and EVERY observation is that exception - unpacker.nav raised it, so no field could be read.  KNOWN is
+   returned only then.  The property predicate of that branch: every requested elementary field whose place does not
+   depend on a rejected counter was reached and its value() is the decoding of its own bytes (a value, or the decoder's
+   exception - the rejected counter itself); a requested path whose place does depend on a rejected counter delivered no
+   value.  So another exception class, a swallowed exception (a count of 0, fields read from wrong places) or a wrong
+   value is a VIOLATION, and an implementation that defers the error to the fields it concerns passes. *)
 From Coq Require Import ZArith NArith List Bool.
 Import ListNotations.
 Require Import SR.Base.Sx SR.Base.Res SR.Base.Dec SR.Spec.Layout SR.Model.Layout SR.Model.Estruct
-  SR.Model.LayoutValue SR.Spec.Coherence SR.Judge.JLayoutCommon SR.Judge.JEstructCommon.
+  SR.Model.LayoutValue SR.Model.LayoutPartial SR.Spec.Coherence SR.Judge.JLayoutCommon SR.Judge.JEstructCommon.
 Open Scope Z_scope.
 
 Definition bytes_eqb (a b : list N) : bool :=
@@ -123,7 +138,8 @@ Fixpoint seq_obs (tops : list sx) : sx :=
       else o
   end.
 
-Definition judge (c : sx) : sx :=
+(* the judge of every stream but bad-counter; dcnt = the total counter decoder of the case *)
+Definition judge_with (dcnt : list N -> nat) (c : sx) : sx :=
   let t := item_of (nth_sx 0 c) in
   let r := as_Ns (nth_sx 1 c) in
   let e := env_of (nth_sx 2 c) in
@@ -138,14 +154,14 @@ Definition judge (c : sx) : sx :=
   let counters_ok :=
     forallb (fun cp =>
       match spec_nav e (VItem t) 0 (path_of (nth_sx 1 cp)) with
-      | inl (v, st) => (dcount (slice r st (st + view_size e v)) =? e (as_N (nth_sx 0 cp)))%nat
+      | inl (v, st) => (dcnt (slice r st (st + view_size e v)) =? e (as_N (nth_sx 0 cp)))%nat
       | inr _ => false
       end) counters in
   let cut := as_nat (nth_sx 10 c) in      (* bytes missing at the end of a truncated record (0: the record is complete) *)
   if negb (counters_ok && (length r + cut =? extent e t)%nat && negb (build_raises t)) then L [A 9; A 0; L [A 0]] else
   let dec := dec_of atoms in
   let js := build t in
-  let mnav := vnav_of dcount r js in
+  let mnav := vnav_of dcnt r js in
   (* ------------------------------------------------------------ the property, on the observations *)
   let good_path (po : sx) : bool :=
     let p := nth_sx 0 po in
@@ -221,7 +237,7 @@ Definition judge (c : sx) : sx :=
     match mnav with
     | Err ex => is_err o (exn_code ex)
     | Ok v0 =>
-        match vnav_path dcount r v0 (wpath_of (nth_sx 0 po)) with
+        match vnav_path dcnt r v0 (wpath_of (nth_sx 0 po)) with
         | Ok v =>
             is_val o
             && (as_Z (nth_sx 1 o) =? Z.of_nat (wstart (vn_loc v)))
@@ -269,7 +285,7 @@ Definition judge (c : sx) : sx :=
     match mnav with
     | Err ex => is_err o (exn_code ex)
     | Ok v0 =>
-        match vnav_path dcount r v0 (wpath_of (nth_sx 0 po)) with
+        match vnav_path dcnt r v0 (wpath_of (nth_sx 0 po)) with
         | Ok v =>
             match index_start_z v (as_Z (nth_sx 2 po)) with
             | Ok z => is_val o && (as_Z (nth_sx 1 o) =? z)
@@ -291,7 +307,7 @@ Definition judge (c : sx) : sx :=
     cobol_like js &&
     match mnav with
     | Ok v0 =>
-        forallb (fun po => match vnav_path dcount r v0 (wpath_of (nth_sx 0 po)) with
+        forallb (fun po => match vnav_path dcnt r v0 (wpath_of (nth_sx 0 po)) with
                            | Ok v => foot_inside v | Err _ => true end) paths
     | Err _ => true
     end in
@@ -304,3 +320,103 @@ Definition judge (c : sx) : sx :=
         of_bool (forallb agree_path paths); of_bool (forallb agree_top tops); of_bool keys_agree; of_bool row_agrees;
         of_bool (forallb agree_neg negs); of_bool top_agrees;
         L (map (fun po => nth_sx 0 po) (filter (fun po => negb (good_path po && agree_path po)) paths))]).
+
+(* ------------------------------------------------------------------ stream bad-counter *)
+Definition counter_dec (cusage : Z) : list N -> res nat := if cusage =? 1 then dcountp_packed else dcountp_zoned.
+
+(* the case in which some counter the walk reaches is rejected by its decoder with ex *)
+Definition judge_bad (cdec : list N -> res nat) (ex : exn) (c : sx) : sx :=
+  let t := item_of (nth_sx 0 c) in
+  let r := as_Ns (nth_sx 1 c) in
+  let e := env_of (nth_sx 2 c) in
+  let counters := as_list (nth_sx 3 c) in
+  let atoms := as_list (nth_sx 4 c) in
+  let schema := nth_sx 5 c in
+  let top := nth_sx 6 c in
+  let paths := as_list (nth_sx 7 c) in
+  let tops := as_list (nth_sx 0 (nth_sx 8 c)) in
+  let rowvals := nth_sx 1 (nth_sx 8 c) in
+  let cut := as_nat (nth_sx 10 c) in
+  let cusage := as_Z (nth_sx 1 (nth_sx 11 c)) in
+  (* the bytes the specification assigns to a counter, under the count vector the record was laid out with *)
+  let field (cp : sx) : option (list N) :=
+    match spec_nav e (VItem t) 0 (path_of (nth_sx 1 cp)) with
+    | inl (v, st) => Some (slice r st (st + view_size e v))
+    | inr _ => None
+    end in
+  (* the case is what the stream promises: every counter decodes to its count or is rejected; a complete record; an ODO
+     table outside every repeated item (the trigger of finding 1 is not this one) *)
+  let valid :=
+    forallb (fun cp => match field cp with
+                       | Some bs => match cdec bs with Ok n => (n =? e (as_N (nth_sx 0 cp)))%nat | Err _ => true end
+                       | None => false
+                       end) counters
+    && (length r =? extent e t)%nat && (cut =? 0)%nat && negb (build_raises t) && has_odo t && negb (odo_in_table t) in
+  if negb valid then L [A 9; A 0; L [A 1]] else
+  let dec := dec_of atoms in
+  let js := build t in
+  (* the counters that are rejected, and two count vectors that differ exactly there *)
+  let rejected (cid : N) : bool :=
+    existsb (fun cp => N.eqb (as_N (nth_sx 0 cp)) cid
+                       && match field cp with Some bs => negb (is_ok (cdec bs)) | None => false end) counters in
+  let e0 : env := fun cid => if rejected cid then 0%nat else e cid in
+  let e1 : env := fun cid => if rejected cid then 1%nat else e cid in
+  (* ------------------------------------------------------------ the property, on the observations.
+     A place is a sum of products of counts, so equal places under 0 and under 1 for the rejected counters mean that they
+     do not occur in it.  A requested ELEMENTARY field whose place and size do not depend on a rejected counter must have
+     been reached, and its value() must be the decoding of its own bytes (the value, or the decoder's exception when its
+     own bytes do not decode - the rejected counter itself is such a field).  A requested path whose place does depend
+     on a rejected counter cannot be located: it must not deliver a value. *)
+  let delivered (o : sx) : bool := is_val o && is_val (nth_sx 4 o) in
+  let good_path (po : sx) : bool :=
+    let p := nth_sx 0 po in
+    let o := nth_sx 1 po in
+    let steps := as_list p in
+    if plain_path p then
+      match spec_nav e0 (VItem t) 0 (path_of p), spec_nav e1 (VItem t) 0 (path_of p) with
+      | inl (v, st), inl (v1, st1) =>
+          if (st =? st1)%nat && (view_size e0 v =? view_size e1 v1)%nat then
+            let own :=
+              match v, rev steps with
+              | VItem (Elem i sz Once _), _ => Some (i, sz)
+              | VAtom sz, last :: _ => Some (as_N (nth_sx 1 last), sz)
+              | _, _ => None
+              end in
+            match own with
+            | Some (i, sz) => is_val o && obs_matches (atom_obs (nth_sx 4 o)) (dec (Some (KName i)) (slice r st (st + sz)))
+            | None => true
+            end
+          else negb (delivered o)
+      | inr _, inr _ => true
+      | _, _ => negb (delivered o)
+      end
+    else true in
+  let good := forallb good_path paths in
+  (* ------------------------------------------------------------ correspondence with the model: vnav_ofp = Err ex, so
+     unpacker.nav raised ex and with it every read *)
+  let code := exn_code ex in
+  let model_blocks := match vnav_ofp cdec r js with Err ex' => exn_eqb ex ex' | Ok _ => false end in
+  let schema_agrees := sx_eqb schema (L [A 0; sx_of_js js]) in
+  let agree := model_blocks && schema_agrees && is_err top code
+               && forallb (fun po => is_err (nth_sx 1 po) code) paths
+               && forallb (fun kv => is_err (nth_sx 1 kv) code) tops
+               && is_err rowvals code in
+  (* pinned: the finding is the DECODER's exception class, ValueError for a zoned digit or packed nibble above 9 *)
+  let known := if exn_eqb ex ValueError then Some 2 else None in
+  let demanded := existsb (fun po => negb (good_path po)) paths in
+  let branch := 32 + (if cusage =? 1 then 1 else 0) + (if has_redef t then 2 else 0) + (if has_table t then 4 else 0)
+                + (if demanded then 8 else 0) in
+  verdict known good agree branch
+    (L [of_bool good; of_bool model_blocks; of_bool schema_agrees; of_bool (is_err top code);
+        of_bool (forallb (fun po => is_err (nth_sx 1 po) code) paths); of_bool (forallb (fun kv => is_err (nth_sx 1 kv) code) tops);
+        of_bool (is_err rowvals code);
+        L (map (fun po => nth_sx 0 po) (filter (fun po => negb (good_path po)) paths))]).
+
+Definition judge (c : sx) : sx :=
+  if as_Z (nth_sx 0 (nth_sx 11 c)) =? 1 then
+    let cdec := counter_dec (as_Z (nth_sx 1 (nth_sx 11 c))) in
+    match bad_counter cdec (as_Ns (nth_sx 1 c)) (build (item_of (nth_sx 0 c))) with
+    | Some ex => judge_bad cdec ex c
+    | None => judge_with (dtot cdec) c        (* every counter reached decodes: the partial constructor is the total one *)
+    end
+  else judge_with dcount c.
